@@ -75,11 +75,21 @@ class _FP:
                 self.visit(x, depth + 1)
         elif isinstance(o, re.Pattern):
             out.append('re:%s:%d' % (o.pattern, o.flags))
+        elif callable(getattr(o, 'cache_info', None)):
+            # a memoising wrapper (functools.lru_cache and friends): its fill level is shared state
+            try:
+                out.append('memo-wrapper:%s:%r' % (getattr(o, '__qualname__', ''), o.cache_info().currsize))
+            except Exception:
+                out.append('memo-wrapper')
         elif isinstance(o, type):
             out.append('class:%s.%s' % (o.__module__, o.__qualname__))
             if (o.__module__ or '').startswith('parso'):
                 for k in sorted(vars(o)):
                     v = vars(o)[k]
+                    if callable(getattr(v, 'cache_info', None)) or callable(getattr(getattr(v, '__func__', None), 'cache_info', None)):
+                        out.append('cattr:' + k)
+                        self.visit(getattr(v, '__func__', v), depth + 1)
+                        continue
                     if k.startswith('__') or callable(v) or isinstance(v, (property, staticmethod, classmethod, types.MemberDescriptorType)):
                         continue
                     out.append('cattr:' + k)
@@ -139,13 +149,29 @@ def fingerprint(versions):
                 continue
             for k, v in sorted(vars(mod).items()):
                 if k.startswith('__') or isinstance(v, (types.ModuleType, types.FunctionType, types.BuiltinFunctionType)):
-                    continue
+                    continue      # (a memoising wrapper is not a FunctionType and gets its section)
                 if isinstance(v, type) and v.__module__ != name:
                     continue
                 section('%s.%s' % (name, k), v)
         return out
     finally:
         sys.setrecursionlimit(old)
+
+
+_WARM = set()
+_WARM_TEXTS = ['import os\n\ndef f(a, b=1, *c, **d):\n    "doc"\n    return [x for x in a if x] + [f"{b!r:>{a}}", b"\\x00", r"\\d", 1.5e3j]\n\nclass A(B):\n    x: int = 1\n',
+               'def g(:\n  x = (1,\n    y\nif x\n\t else:\n  "unterminated\n', 'f(x for x in y, 1)\nnonlocal q\n*a = 1\nf"{!}"\n\x0c# c\n\\\n']
+
+
+def warm_up(versions):
+    """Every kind of call once per version on fixed texts that no generator produces."""
+    for v in versions:
+        key = (v, id(parso.load_grammar(version=v)))       # a case that emptied the grammar registry forces a new warm-up
+        if key in _WARM:
+            continue
+        for t in _WARM_TEXTS:
+            run_call(['all', v, t])
+        _WARM.add(key)
 
 
 def fp_diff(a, b):
@@ -194,7 +220,8 @@ class C18(Prop):
             'that fork()s per call); (2) after a warm-up pass a deep structural fingerprint (types, scalars, container contents, graph '
             'shape by identity) of the loaded grammars incl. generated tables, token-pattern cache, rule registries, parser_cache and '
             'every data global / class attribute of the parso package is unchanged by a second pass, whose results equal the first; '
-            '(3) the same calls run in 2-6 threads through the shared grammar objects under the harness-owned line-granular baton '
+            '(2b) after a warm-up with fixed *other* texts (first-use memoisation of tables, token patterns) the first pass of the drawn calls '
+            'already leaves that fingerprint unchanged (memoising wrappers show their fill level); (3) the same calls run in 2-6 threads through the shared grammar objects under the harness-owned line-granular baton '
             'scheduler (schedule = drawn run lengths / next-thread choices) give the sequential results. Three of four cases are light sibling histories: 2-3 calls where a later call gets an earlier call\'s text or a one-token '
             'variant of it (string prefix flipped, one name/number replaced), usually the same kind of call, compared with the pristine process only. '
             'Non-trivial: schedule with >=3 context switches while >=2 threads are inside parse/walk/tokenize; light case: two calls of one kind with different texts. Distinct by (calls, schedule).')
@@ -263,6 +290,12 @@ class C18(Prop):
             parso.grammar._loaded_grammars.clear()
         fail = None
         classes = []
+        # (0) first-use memoisation (grammar tables, token patterns, rule instantiation) is triggered with *other* texts,
+        # so that the first pass below may not change shared state at all - a memo keyed by anything text-dependent shows
+        f0 = None
+        if not case.get('light') and not case.get('fresh_grammars'):
+            warm_up(versions)
+            f0 = fingerprint(versions)
         # (1) sequential pass 1 vs pristine process
         r1 = [norm(run_call(c)) for c in calls]
         if any(isinstance(r, list) and r[:2] == ['EXC', 'RecursionError'] for r in r1):
@@ -288,6 +321,12 @@ class C18(Prop):
         # (2) purity: second pass leaves the fingerprint unchanged and repeats the results
         if fail is None:
             f1 = fingerprint(versions)
+            if f0 is not None:
+                d = fp_diff(f0, f1)
+                if d:
+                    fail = ('shared-state-changed-by-first-pass:' + d[0], 'warmed up with other texts, then these calls changed: %r' % d[:6])
+                classes.append('first-pass-purity')
+        if fail is None:
             for i, c in enumerate(calls):
                 r = norm(run_call(c))
                 if r != r1[i]:
